@@ -71,13 +71,30 @@ def run_one(m, slot):
         return m, "SKIPPED", "find text not present"
     env = dict(os.environ, TFV_REPO=repo, TFV_CACHE=os.path.join(work, "cache"),
                TFV_EVIDENCE_DIR=os.path.join(work, "evidence"))
+    shutil.rmtree(env["TFV_EVIDENCE_DIR"], ignore_errors=True)
     os.makedirs(env["TFV_EVIDENCE_DIR"], exist_ok=True)
+    # warm the slot's cargo target with the already-compiled dependencies (registry crates are path-independent)
+    warm = os.path.join(VERIF, ".cache", "target")
+    slot_target = os.path.join(env["TFV_CACHE"], "target")
+    if os.path.isdir(warm) and not os.path.isdir(slot_target):
+        os.makedirs(env["TFV_CACHE"], exist_ok=True)
+        subprocess.run(["cp", "-r", warm, slot_target], check=False)
     r = subprocess.run([os.path.join(VERIF, "check"), m["property"]], env=env, cwd=VERIF,
                        stdout=subprocess.PIPE, stderr=subprocess.STDOUT, text=True)
     out = r.stdout
     if "does not build" in out or "cargo check of" in out:
         return m, "NOCOMPILE", out[-1500:]
-    keys = re.findall(r"^\s+%s: \[(.*?)\]" % m["property"], out, re.M)
+    keys = []
+    rdir = os.path.join(env["TFV_EVIDENCE_DIR"], "replays")
+    if os.path.isdir(rdir):
+        for fn in sorted(os.listdir(rdir)):
+            if fn.startswith(m["property"] + "-"):
+                try:
+                    keys.append(json.load(open(os.path.join(rdir, fn)))["key"])
+                except (OSError, ValueError, KeyError):
+                    pass
+    if not keys:
+        keys = re.findall(r"^\s+%s: \[(.*?)\]" % m["property"], out, re.M)
     exp = m.get("expect", "")
     if m.get("equivalent"):
         # behaviour-preserving edit: the check must stay silent
